@@ -213,6 +213,11 @@ func genValRepr(r *Rand, oid uint32, fam string) Val {
 	case "ts", "tstz":
 		v.I = genInt(r, -63082281600000000, 252455615999999999) // year 1 .. 9999 in microseconds
 	}
+	if fam == "tstz" && r.Chance(1, 3) {
+		// the handler's time.Time lives in a zone of its own, also one that is
+		// not a whole number of hours away from UTC
+		v.Z = int32(r.PickInt(3600, -18000, 19800, 20700, -12600, 34200, 45900, -34200, 50400))
+	}
 	return v
 }
 
@@ -248,6 +253,11 @@ func genCols(r *Rand, n int, oids []uint32) []ColSpec {
 			name = r.Ident(r.PickInt(62, 63, 64, 65, 200, 1000)) // around NAMEDATALEN and beyond
 		}
 		cols[i] = ColSpec{Name: name, OID: oids[r.Intn(len(oids))], Width: int16(r.PickInt(0, -1, 4, 256)), Table: int32(r.Intn(3)), Attr: int16(r.Intn(4))}
+		if r.Chance(1, 6) {
+			// a declared type modifier (varchar(n) is n+4): metadata for the client,
+			// never a reason to alter the values
+			cols[i].Mod = int32(r.PickInt(-1, 5, 6, 9, 14, 260))
+		}
 	}
 	return cols
 }
